@@ -35,8 +35,11 @@ SCHED_MEASURE = "distinct (interruption kinds sequence, optimizer, scheduler) si
 ASSUMPTIONS = [
     "full-batch updates only (mini-batch order is re-seeded on load: outside the claim); raw data is "
     "saved with the object (save_raw_data=True)",
-    "relative tolerance 1e-4 on loss history, object and probe after continuing (HEAD deviates "
-    "<= 7e-7 over adam/adamw/sgd x all schedulers); exact equality right after an interruption",
+    "relative tolerance 1e-4 on loss history, object and probe after continuing (HEAD typically "
+    "deviates <= 7e-7); a larger deviation counts only if it exceeds 20x the drift of two twins "
+    "that were perturbed by 2 ulp at the same interruption points (round-off amplified by rounded "
+    "scan positions / normalised Adam steps is not a lost state); exact equality right after an "
+    "interruption",
     "optimizer/scheduler state and parameter binding are diagnostics that label a divergence, never "
     "violations by themselves (an implementation that re-binds lazily would be correct)",
     "I/O faults are C08's subject: saves here are fault-free, only the I/O schedule varies",
@@ -248,6 +251,63 @@ def _diagnostics(pt):
     return d
 
 
+def _perturb(pt, eps):
+    """Scale every optimised parameter by (1 + eps): a couple of float32 ulps."""
+    import torch
+
+    with torch.no_grad():
+        for mod in (pt.obj_model, pt.probe_model, pt.dset):
+            if mod.optimizer is None:
+                continue
+            ps = mod.get_optimization_parameters()
+            for p_ in ([ps] if isinstance(ps, torch.Tensor) else list(ps)):
+                p_.mul_(1.0 + eps)
+
+
+def _noise_scale(plan, upto):
+    """How far do runs that differ by ~2 ulp at the interruption points drift apart in THIS
+    configuration?  Re-runs the uninterrupted history three times (U', P+, P-), perturbing P+/P- where
+    R was interrupted, and returns the largest deviation per quantity after op index `upto`.
+    Only called when a candidate divergence was seen (rare), to tell a lost state from round-off
+    amplified by a discontinuity (patch indices follow rounded scan positions) or by Adam's
+    normalised steps."""
+    cfg = plan["cfg"]
+    twins = [_build(cfg), _build(cfg), _build(cfg)]
+    eps = [0.0, 2.0 ** -22, -(2.0 ** -22)]
+    first = True
+    for j, op in enumerate(plan["ops"][: upto + 1]):
+        if op["op"] == "recon":
+            kw = {"num_iters": op["n"], "loss_type": cfg["loss"]}
+            if cfg["snapshots"]:
+                kw["store_snapshots_every"] = cfg["snapshots"]
+            for X in twins:
+                kw2 = dict(kw)
+                if first:
+                    kw2.update(reset=True, optimizer_params=copy.deepcopy(_opt_params(cfg)),
+                               scheduler_params=copy.deepcopy(cfg["sched"]),
+                               constraints=copy.deepcopy(cfg["constraints"]))
+                X.reconstruct(**kw2)
+            first = False
+        elif not first:
+            for X, e in zip(twins, eps):
+                if e:
+                    _perturb(X, e)
+    su = _state(twins[0])
+    out = {"loss": 0.0, "lr": 0.0, "obj": 0.0, "probe": 0.0}
+    for X in twins[1:]:
+        sx = _state(X)
+        out["loss"] = max(out["loss"], _rel(sx["iter_losses"], su["iter_losses"]))
+        for key in su["iter_lrs"]:
+            if key in sx["iter_lrs"]:
+                out["lr"] = max(out["lr"], _rel(sx["iter_lrs"][key], su["iter_lrs"][key]))
+        for key in ("obj", "probe"):
+            out[key] = max(out[key], _rel(sx[key], su[key]))
+    return out
+
+
+NOISE_FACTOR = 20.0
+
+
 def run(plan):
     m = _ctx["m"]
     P = m["Ptychography"]
@@ -322,23 +382,38 @@ def run(plan):
                     # ---- oracle 2: R continues exactly as U
                     if interrupted and not diverged:
                         su, sr = _state(U), _state(R)
-                        bad = []
+                        bad = []      # hard: structure differs
+                        soft = {}     # numeric deviations above RTOL, per quantity
                         if su["num_iters"] != sr["num_iters"]:
                             bad.append(f"num_iters {su['num_iters']} vs {sr['num_iters']}")
                         e = _rel(sr["iter_losses"], su["iter_losses"])
                         if e > RTOL:
-                            bad.append(f"loss history rel.dev {e:.3g}")
+                            soft["loss"] = e
                         if set(su["iter_lrs"]) != set(sr["iter_lrs"]):
                             bad.append(f"lr keys {sorted(su['iter_lrs'])} vs {sorted(sr['iter_lrs'])}")
                         else:
                             for key in su["iter_lrs"]:
                                 e = _rel(sr["iter_lrs"][key], su["iter_lrs"][key])
                                 if e > RTOL:
-                                    bad.append(f"lr history[{key}] rel.dev {e:.3g}")
+                                    soft["lr"] = max(soft.get("lr", 0.0), e)
                         for key in ("obj", "probe"):
                             e = _rel(sr[key], su[key])
                             if e > RTOL:
-                                bad.append(f"{key} rel.dev {e:.3g}")
+                                soft[key] = e
+                        if soft and not bad:
+                            # is this configuration simply sensitive to round-off?
+                            noise = _noise_scale(plan, j)
+                            real = {q: v for q, v in soft.items()
+                                    if v > NOISE_FACTOR * noise[q] + RTOL}
+                            if not real:
+                                bump(res["obs"], "fp_sensitive_configuration")
+                                diverged = True   # later comparisons of this run are meaningless
+                                soft = {}
+                            else:
+                                soft = {q: (v, noise[q]) for q, v in real.items()}
+                        for q, v in soft.items():
+                            bad.append(f"{q} rel.dev {v[0]:.3g} (2-ulp perturbation twins drift "
+                                       f"{v[1]:.2g})" if isinstance(v, tuple) else f"{q} rel.dev {v:.3g}")
                         if bad:
                             diverged = True
                             viol("resume_diverges",
@@ -347,7 +422,7 @@ def run(plan):
                                  f"diagnostics: {_diagnostics(R)}; opt={cfg['opt']} sched="
                                  f"{ {a: b['type'] for a, b in cfg['sched'].items()} } keys={cfg['keys']}",
                                  "resume_diverges:" + "+".join(sorted({x for x in kinds if x != "recon"}))
-                                 + ":" + bad[0].split(" ")[0])
+                                 + ":" + bad[0].split(" ")[0].replace("history", ""))
                     continue
                 if first:
                     continue  # nothing to interrupt before the first reconstruct call
